@@ -3,12 +3,12 @@
 set -u
 NAME=$1; WT=$2; DEMO=$3
 cd $WT || exit 2
-git diff -- src > /dev/shm/$NAME.patch
+git diff -- src | sed 's/\r$//' > /dev/shm/$NAME.patch
 [ -s /dev/shm/$NAME.patch ] || { echo "empty patch"; exit 2; }
 echo "== demo WITH change"; PYTHONPATH=$WT/src timeout 300 /venv/bin/python $DEMO > /dev/shm/$NAME.with.log 2>&1; W=$?; tail -3 /dev/shm/$NAME.with.log
-git stash -q
+git checkout -- src
 echo "== demo WITHOUT change"; PYTHONPATH=$WT/src timeout 300 /venv/bin/python $DEMO > /dev/shm/$NAME.without.log 2>&1; WO=$?; tail -3 /dev/shm/$NAME.without.log
-git stash pop -q
+git apply /dev/shm/$NAME.patch
 echo "exit with=$W without=$WO"
 echo "== test suite with change"
 PYTHONPATH=$WT/src timeout 900 /venv/bin/python -m pytest -q -p no:cacheprovider --timeout=900 --continue-on-collection-errors tests 2>&1 | tail -1
